@@ -1,6 +1,6 @@
 """C08 — every block is a pure stream function: output independent of chunking (partial)."""
 from ..common import *
-from ..mir import peel, walk, show, same_expr
+from ..mir import peel, walk, show, same_expr, Body
 from .. import effects
 from . import c19, c09
 
@@ -666,6 +666,139 @@ def rule_r10(facts, col):
             col.ok("C08.R10", "%s:no-bulk-copy" % body.q, body.where(), "partial consume, but no unbounded bulk copy of the read window")
 
 
+STREAM_IN_TYPES = ("stream::ReadStream", "stream::NCReadStream")
+
+
+def _has_input_stream(facts, body):
+    a = facts.adts.get(body.self_adt or "")
+    if not a:
+        return False
+    return any(any(w in f["ty"]["adts"] for w in STREAM_IN_TYPES) for v in a["variants"] for f in v["fields"])
+
+
+def _is_err_value(e):
+    return (e.k == "agg" and e.variant == "Err") or (e.k == "call" and (e.q or "").endswith("from_residual"))
+
+
+def _closure_consumes(facts, body):
+    """blocks of `body` whose call is handed a closure (built in this body) that consumes from a stream window or pops a
+    packet: `srcs.iter().try_for_each(|s| { .. w.consume(1); .. })`.  Iteration is taken to happen."""
+    out = set()
+    for bb, t in body.calls():
+        for a in t["args"]:
+            e = peel(body.operand_expr(a), through_try=False)
+            n = 0
+            while e is not None and e.k in ("ref", "deref") and n < 4:
+                e = peel(e.a, through_try=False)
+                n += 1
+            if e is not None and e.k == "agg" and e.ak == "closure" and e.q:
+                cb = facts.by_path.get(e.q)
+                if cb is None:
+                    continue
+                for cbb, ct in cb.calls():
+                    qs = Body.callee_qs(ct)
+                    if effects.CONSUME in qs or effects.POP in qs:
+                        out.add(bb)
+    return out
+
+
+def rule_r11(facts, col, rule_id="C08.R11"):
+    """output is paid for: in a block that has an input stream, every non-error path of work() that commits output
+    (produce() with a count that is not the constant 0, push() of a packet) also takes from an input (consume(), a pop() that
+    returned Some) or changes the block's own state (assignment into self, `&mut self.field` handed to a call).  A path
+    that commits output and changes nothing else is repeated verbatim by the next call: the number of copies emitted then
+    depends on how often the runner calls work(), not on the input."""
+    for body0 in facts.impl_bodies(BLOCK_TRAIT, "work"):
+        if body0.from_derive or not _has_input_stream(facts, body0):
+            continue
+        body = effects.work_view(facts, body0, methods=True)
+        eff = effects.Effects(facts, body)
+        outs, ins = {}, set()
+        for bb, t in body.calls():
+            qs = Body.callee_qs(t)
+            nm = t["f"].get("name")
+            if effects.PRODUCE in qs and not effects.count_is_const_zero(body, t):
+                outs[bb] = "produce"
+            elif nm == "push" and any(q.startswith("stream::") for q in qs):
+                outs[bb] = "push"
+            elif effects.CONSUME in qs and not effects.count_is_const_zero(body, t):
+                ins.add(bb)
+        for pbb, tgt in effects.pop_some_targets(body).items():
+            ins.add(tgt if tgt is not None else pbb)
+        ins |= _closure_consumes(facts, body)
+        if not outs:
+            continue
+        okrets = {rb for rb, si, e in assigns_to_return(body) if not _is_err_value(e)}
+        state = set(eff.progress) - set(eff.stream_points)
+        avoid = ins | state
+        # a loop that contains an input advance is taken to run (`for src in &mut self.srcs { .. consume(1) }`)
+        for comp in sccs(body):
+            if len(comp) > 1 and comp & ins:
+                avoid |= comp
+        avoid -= set(outs)
+        r = reach_avoiding(body, 0, avoid)
+        for bb, kind in sorted(outs.items()):
+            key = "%s:%s#%d" % (body0.q, kind, sorted(outs).index(bb))
+            if bb in ins or bb in state:
+                col.ok(rule_id, key, body.where(bb), "same step also changes state")
+                continue
+            if bb in r and okrets & reach_avoiding(body, bb, avoid - {bb}):
+                col.bad(rule_id, key, body.where(bb),
+                        "work() can return Ok after this %s() without having consumed anything from an input and without any change to "
+                        "its own state: the next call is in exactly the same situation and commits the same output again - the "
+                        "output contains as many copies as the runner made calls%s" % (
+                            kind, "" if ins else " (this work() never consumes at all)"), {})
+            else:
+                col.ok(rule_id, key, body.where(bb), "every non-error path through this %s() also consumes input or changes state" % kind)
+
+
+def rule_r12(facts, col, rule_id="C08.R12"):
+    """output sized by the input is paid for by that input: where the count of a produce() is computed from the length of a
+    read window of self.W (`min(i.len(), o.len())`, `i.len() / 2`, ..), every non-error path of work() through that produce()
+    also passes a consume() on a window of W.  Changing other state does not substitute here: the samples that sized (and
+    filled) the output are still at the front of W on the next call and are emitted again."""
+    for body0 in facts.impl_bodies(BLOCK_TRAIT, "work"):
+        if body0.from_derive:
+            continue
+        body = effects.work_view(facts, body0, methods=True)
+        cons = {}
+        for bb, t in body.calls_to(effects.CONSUME):
+            if effects.count_is_const_zero(body, t):
+                continue
+            w = c09.window_of(body.operand_expr(t["args"][0]))
+            cons.setdefault(w[0] if w else None, set()).add(bb)
+        for cbb in _closure_consumes(facts, body):
+            cons.setdefault(None, set()).add(cbb)
+        okrets = {rb for rb, si, e in assigns_to_return(body) if not _is_err_value(e)}
+        k = 0
+        for bb, t in body.calls_to(effects.PRODUCE):
+            if len(t["args"]) < 2:
+                continue
+            cnt = body.operand_expr(t["args"][1])
+            ws = set()
+            for x in walk(cnt):
+                w = c09.len_of_window(x)
+                if w and w[1] == "R":
+                    ws.add(w[0])
+            key = "%s:produce#%d" % (body0.q, k)
+            k += 1
+            if not ws:
+                col.silent(rule_id, key, body.where(bb), "count not visibly computed from a read window's length")
+                continue
+            for w in sorted(ws):
+                avoid = set(cons.get(w, set())) | set(cons.get(None, set()))
+                avoid.discard(bb)
+                before = bb in reach_avoiding(body, 0, avoid)
+                after = okrets & reach_avoiding(body, bb, avoid)
+                if before and after:
+                    col.bad(rule_id, key + ":" + w, body.where(bb),
+                            "the count of this produce() is computed from the length of self.%s's read window, but work() can return Ok "
+                            "through it without consuming from self.%s: the samples that sized and filled this output are still at the "
+                            "front of the window on the next call and are emitted again" % (w, w), {})
+                else:
+                    col.ok(rule_id, key + ":" + w, body.where(bb), "every non-error path through this produce() consumes from self.%s" % w)
+
+
 def from_logging(t):
     sp = t.get("sp") or {}
     return any(x.startswith(("log::", "debug!", "trace!", "info!", "warn!", "error!", "format_args!", "eprintln!", "println!")) or "log" in x
@@ -703,6 +836,10 @@ def run(ctx):
     ctx.floor("C08.R8", 8, "fill_from_* sites of the crate's work() bodies")
     rule_r10(facts, ctx)
     ctx.floor("C08.R10", 10, "hand-written work() bodies that consume part of a window")
+    rule_r11(facts, ctx)
+    ctx.floor("C08.R11", 25, "output commitments (produce/push) in hand-written work() bodies of blocks with an input stream")
+    rule_r12(facts, ctx)
+    ctx.floor("C08.R12", 8, "produce() sites of hand-written work() bodies whose count is computed from a read window's length")
     rule_r9(facts, ctx)
     ctx.floor("C08.R9", 5, "per-sample loops of hand-written work() bodies that write carried state (8 today)")
     rule_r7(facts, ctx)
